@@ -149,6 +149,33 @@ Definition set_kv_pair (d : db) (r : root) (kvs : list (bytes * bytes)) : option
               end
   end.
 
+(** DelKVPair: load, Tree.Remove each key in order, save; also returns the
+    removed values.  (Exported by the tree package; the store's own Del is a
+    stub and no block-processing path removes keys.) *)
+Fixpoint t_remove_all (o : otree) (ks : list bytes) : option (otree * list (option bytes)) :=
+  match ks with
+  | [] => Some (o, [])
+  | k :: tl =>
+      match t_remove o k with
+      | None => None
+      | Some (o', v, _) =>
+          match t_remove_all o' tl with
+          | None => None
+          | Some (o'', vs) => Some (o'', v :: vs)
+          end
+      end
+  end.
+
+Definition del_kv_pair (d : db) (r : root) (ks : list bytes)
+  : option (db * root * list (option bytes)) :=
+  match load_tree d r with
+  | None => None
+  | Some o => match t_remove_all o ks with
+              | None => None
+              | Some (o', vs) => Some (save_tree d o', vs)
+              end
+  end.
+
 (** GetKVPair / Store.Get for one key: the value if the key exists. *)
 Definition get_at (d : db) (r : root) (k : bytes) : option (option bytes) :=
   match load_tree d r with
